@@ -5,6 +5,7 @@ package main
 
 import (
 	"go/types"
+	"strings"
 
 	"golang.org/x/tools/go/ssa"
 )
@@ -26,6 +27,14 @@ func externMods(f *ssa.Function) (keys []string, allocs bool, known bool) {
 		return nil, false, true
 	case "bytes.TrimLeft", "bytes.TrimRight", "bytes.TrimSpace", "strings.TrimSpace", "strings.Trim", "strings.TrimLeft", "strings.TrimRight":
 		return nil, false, true
+	case "(*strings.Builder).Grow", "(*strings.Builder).Len":
+		return nil, false, true
+	case "(*strings.Builder).WriteByte", "(*strings.Builder).WriteString", "(*strings.Builder).WriteRune":
+		return []string{"E:byte", "F:strings.Builder.buf#id", "F:strings.Builder.buf#off", "F:strings.Builder.buf#len", "F:strings.Builder.buf#cap"}, true, true
+	case "(*strings.Builder).String":
+		return []string{"S:byte"}, true, true
+	case "unicode/utf8.EncodeRune":
+		return []string{"E:byte"}, false, true
 	case "fmt.Errorf", "fmt.Sprintf", "errors.New", "strings.Repeat", "strings.ToLower", "html.EscapeString", "html.UnescapeString",
 		"strings.Fields", "strconv.Itoa":
 		return []string{"S:byte"}, true, true
@@ -177,7 +186,93 @@ func (x *Exec) externCall(st *State, c *ssa.Call, f *ssa.Function, args []SV) SV
 		rt := c.Type().(*types.Tuple)
 		return SV{K: KTuple, Ty: c.Type(), Fields: []SV{intSV(r, rt.At(0).Type()), intSV(size, rt.At(1).Type())}}
 	}
+	if strings.HasPrefix(name, "(*strings.Builder).") {
+		return x.builderCall(st, c, strings.TrimPrefix(name, "(*strings.Builder)."), args)
+	}
+	switch name {
+	case "strings.ContainsRune", "bytes.ContainsRune":
+		set, ok := x.prog.constOf(args[0])
+		if !ok {
+			x.fail("%s with a non-constant set", name)
+		}
+		return boolSV(x.inCharSet(args[1].T, set))
+	case "unicode/utf8.EncodeRune":
+		p, r := args[0], args[1].T
+		n := Var(x.freshName("encn"), SInt)
+		x.safe(st, "index", Ge(p.Len, IntC(4)), "utf8.EncodeRune: buffer of at least UTFMax bytes", c.Pos())
+		x.registerKey("E:byte", SArr2)
+		h := x.heapGet(st.heap, "E:byte", SArr2)
+		old := Select(h, p.Id)
+		na := Var(x.freshName("encarr"), SArrI)
+		st.assume(Ite(And(Le(IntC(0), r), Lt(r, IntC(0x80))), And(Eq(n, IntC(1)), Eq(Select(na, p.Off), r)), And(Le(IntC(2), n), Le(n, IntC(4)))))
+		j := Var(x.freshName("j!enc"), SInt)
+		st.assume(Forall([]*Term{j}, Implies(Or(Lt(j, p.Off), Ge(j, Add(p.Off, n))), Eq(Select(na, j), Select(old, j)))))
+		j2 := Var(x.freshName("j!enc"), SInt)
+		st.assume(Forall([]*Term{j2}, Implies(And(Le(p.Off, j2), Lt(j2, Add(p.Off, n))), And(Le(IntC(0), Select(na, j2)), Le(Select(na, j2), IntC(255))))))
+		st.heap["E:byte"] = Store(h, p.Id, na)
+		return intSV(n, types.Typ[types.Int])
+	}
 	x.fail("call to external function %s (no assumed contract)", name)
+	return SV{}
+}
+
+// builderCall: strings.Builder as an append-only byte sequence kept in its buf field.
+func (x *Exec) builderCall(st *State, c *ssa.Call, method string, args []SV) SV {
+	recv := args[0]
+	if recv.T == nil {
+		x.fail("strings.Builder receiver is not a heap reference")
+	}
+	bt := c.Call.Args[0].Type().Underlying().(*types.Pointer).Elem()
+	stt := bt.Underlying().(*types.Struct)
+	bufIdx := -1
+	for i := 0; i < stt.NumFields(); i++ {
+		if stt.Field(i).Name() == "buf" {
+			bufIdx = i
+		}
+	}
+	if bufIdx < 0 {
+		x.fail("strings.Builder layout")
+	}
+	x.safe(st, "nil", Ne(recv.T, IntC(0)), "nil *strings.Builder", c.Pos())
+	loc := &Loc{Ref: recv.T, RefTy: bt, Path: []int{bufIdx}}
+	buf := x.load(st, loc)
+	byteT := types.Typ[types.Byte]
+	bufTy := stt.Field(bufIdx).Type()
+	switch method {
+	case "Grow":
+		return SV{K: KTuple}
+	case "Len":
+		return intSV(buf.Len, types.Typ[types.Int])
+	case "WriteByte":
+		t := SV{K: KSeq, Arr: Store(App("zeroarr", SArrI), IntC(0), args[1].T), Off: IntC(0), Len: IntC(1), Cap: IntC(1)}
+		x.store(st, loc, x.appendCore(st, buf, t, byteT, "E:byte", bufTy))
+		return refSV(IntC(0), c.Type()) // error result: nil
+	case "WriteString":
+		t := args[1]
+		n := t.Len
+		x.store(st, loc, x.appendCore(st, buf, t, byteT, "S:byte", bufTy))
+		return SV{K: KTuple, Ty: c.Type(), Fields: []SV{intSV(n, types.Typ[types.Int]), refSV(IntC(0), types.Universe.Lookup("error").Type())}}
+	case "WriteRune":
+		r := args[1].T
+		enc := Var(x.freshName("runeenc"), SArrI)
+		n := Var(x.freshName("runelen"), SInt)
+		st.assume(Ite(And(Le(IntC(0), r), Lt(r, IntC(0x80))), And(Eq(n, IntC(1)), Eq(Select(enc, IntC(0)), r)),
+			And(Le(IntC(1), n), Le(n, IntC(4)),
+				Ge(Select(enc, IntC(0)), IntC(0x80)), Ge(Select(enc, IntC(1)), IntC(0x80)), Ge(Select(enc, IntC(2)), IntC(0x80)), Ge(Select(enc, IntC(3)), IntC(0x80)))))
+		for k := int64(0); k < 4; k++ {
+			st.assume(And(Le(IntC(0), Select(enc, IntC(k))), Le(Select(enc, IntC(k)), IntC(255))))
+		}
+		t := SV{K: KSeq, Arr: enc, Off: IntC(0), Len: n, Cap: n}
+		x.store(st, loc, x.appendCore(st, buf, t, byteT, "E:byte", bufTy))
+		return SV{K: KTuple, Ty: c.Type(), Fields: []SV{intSV(n, types.Typ[types.Int]), refSV(IntC(0), types.Universe.Lookup("error").Type())}}
+	case "String":
+		x.registerKey("E:byte", SArr2)
+		x.registerKey("S:byte", SArr2)
+		id := x.allocRef(st)
+		st.heap["S:byte"] = Store(x.heapGet(st.heap, "S:byte", SArr2), id, Select(x.heapGet(st.heap, "E:byte", SArr2), buf.Id))
+		return SV{K: KSeq, Ty: c.Type(), Id: id, Off: buf.Off, Len: buf.Len, Cap: buf.Len}
+	}
+	x.fail("strings.Builder.%s", method)
 	return SV{}
 }
 
@@ -226,5 +321,66 @@ func (x *Exec) typeAssert(st *State, i *ssa.TypeAssert) SV {
 	return SV{}
 }
 
-func (x *Exec) rangeInit(st *State, i *ssa.Range) SV { x.fail("range over string/map"); return SV{} }
-func (x *Exec) rangeNext(st *State, i *ssa.Next) SV  { x.fail("range over string/map"); return SV{} }
+// String iteration: the iterator is a ghost position; Next decodes one rune.
+func (x *Exec) rangeInit(st *State, i *ssa.Range) SV {
+	if !isStringType(i.X.Type()) {
+		x.fail("range over a map")
+	}
+	s := x.value(st, i.X)
+	fr := st.top()
+	if fr.iters == nil {
+		fr.iters = map[*ssa.Range]*Term{}
+	}
+	fr.iters[i] = IntC(0)
+	cp := s
+	return SV{K: KRef, T: IntC(0), Ty: i.Type(), Dyn: &cp}
+}
+
+func (x *Exec) decodeAt(st *State, s SV, pos *Term) (r, size *Term) {
+	var arr *Term
+	if s.Arr != nil {
+		arr = s.Arr
+	} else {
+		key := "E:byte"
+		if isStringType(s.Ty) {
+			key = "S:byte"
+		}
+		x.registerKey(key, SArr2)
+		arr = Select(x.heapGet(st.heap, key, SArr2), s.Id)
+	}
+	off := Add(s.Off, pos)
+	n := Sub(s.Len, pos)
+	r = App("ext.utf8.DecodeRune", SInt, arr, off, n)
+	size = App("ext.utf8.DecodeRune.size", SInt, arr, off, n)
+	first := Select(arr, off)
+	st.assume(And(Le(IntC(0), r), Le(r, IntC(0x10FFFF))))
+	st.assume(Implies(Gt(n, IntC(0)), And(Le(IntC(1), size), Le(size, IntC(4)), Le(size, n))))
+	st.assume(Implies(And(Gt(n, IntC(0)), Lt(first, IntC(0x80))), And(Eq(r, first), Eq(size, IntC(1)))))
+	st.assume(Implies(And(Gt(n, IntC(0)), Ge(first, IntC(0x80))), Ge(r, IntC(0x80))))
+	return r, size
+}
+
+func (x *Exec) rangeNext(st *State, i *ssa.Next) SV {
+	if !i.IsString {
+		x.fail("range over a map")
+	}
+	rng, ok := i.Iter.(*ssa.Range)
+	if !ok {
+		x.fail("iterator is not a range instruction")
+	}
+	fr := st.top()
+	it := x.value(st, i.Iter)
+	if it.Dyn == nil {
+		x.fail("lost string iterator")
+	}
+	s := *it.Dyn
+	pos := fr.iters[rng]
+	if pos == nil {
+		x.fail("string iterator has no position")
+	}
+	okT := Lt(pos, s.Len)
+	r, size := x.decodeAt(st, s, pos)
+	fr.iters[rng] = Ite(okT, Add(pos, size), pos)
+	tt := i.Type().(*types.Tuple)
+	return SV{K: KTuple, Ty: i.Type(), Fields: []SV{boolSV(okT), intSV(pos, tt.At(1).Type()), intSV(r, tt.At(2).Type())}}
+}
